@@ -414,6 +414,10 @@ def exec_handshake(case):
 # ---- part receive: the client side of the framing
 
 
+class _Exhausted(Exception):
+    '''the reader asked for bytes that were never sent'''
+
+
 class FragSocket:
     def __init__(self, data, sizes):
         self.data = data
@@ -428,7 +432,7 @@ class FragSocket:
         b = self.data[self.pos:self.pos + k]
         self.pos += len(b)
         if not b:
-            raise core.HarnessError('recv on an exhausted stream')
+            raise _Exhausted()
         return b
 
     def sendall(self, b):
@@ -448,8 +452,14 @@ def exec_receive(case):
                  'pickle')
     rd = FragSocket(data, case['sizes'])
     got = []
-    for _ in objs:
-        got.append(message.receive(rd))
+    try:
+        for _ in objs:
+            got.append(message.receive(rd))
+    except Exception as exc:  # pylint: disable=broad-except
+        out.fail('framing/receive-differs',
+                 f'sizes={case["sizes"][:8]}: message {len(got) + 1} of '
+                 f'{len(objs)}: {type(exc).__name__}: {exc}')
+        return out
     if got != objs:
         out.fail('framing/receive-differs', f'sizes={case["sizes"][:8]}')
     if rd.pos != len(data):
